@@ -314,6 +314,13 @@ theorem mid_update_total (nextMid mid : Nat) (b : Buf) (n : Nat) (site : String)
   simp only at h
   omega
 
+/-- witness for the known finding `retain:SctpInner::handle_packet:dcep-open-per-stream`: on an established association that
+already has 1024 channels a 12-byte DCEP OPEN on one more stream id creates one more — nothing in `handle_dcep` (nor in this model
+of it, which the `sctpassoc` stream compares with the code) limits the number of channels a peer can make the endpoint keep. -/
+theorem dcep_open_unbounded_witness :
+    (match SctpSt.handleDcepSt { state := 1, chans := List.range 1024 } 1024 (Buf.ofList [3, 0, 0, 0, 0, 0, 0, 0, 0, 0, 0, 0]) 0 with
+     | .ok s _ _ => decide (s.chans.length = 1025) | _ => false) = true := by decide +kernel
+
 /-- witness kept visible: the pre-fix arithmetic `mid_val + 1` panics for `a=mid:65535` in a build with overflow
 checks (cargo's dev profile) — and silently wraps to 0 in the release profile. -/
 theorem mid_update_unfixed_witness :
